@@ -21,7 +21,7 @@ type opGen struct {
 
 var attrNames = []string{"a", "b", "name", "count", "x-y", "for", "if", "in", "enabled", "k1", "null", "true", "list", "cfg", "_u", "A1", "été"}
 var blockTypes = []string{"block", "resource", "service", "b", "dynamic", "x-y", "for", "null", "été"}
-var labelPool = []string{"a", "b", "web", "x-y", "with space", "q\"uote", "100%", "a$b", "a$${b}", "é", "back\\slash", "", "for", "${", "%{", "n\nl", "tab\t", "日本", "𝄞", "\u0001", "$", "%", "#", "//", "}"}
+var labelPool = []string{"a", "b", "web", "x-y", "with space", "q\"uote", "100%", "a$b", "a$${b}", "é", "back\\slash", "", "for", "${", "%{", "n\nl", "tab\t", "日本", "𝄞", "\u0001", "$", "%", "#", "//", "}", "cafe\u0301", "\u212b", "\u2126x", "e\u0301\u0323"}
 var stringPool = []string{"", "a", "hello", "a b", "x\"y", "back\\slash", "new\nline", "cr\r", "tab\t", "${", "%{", "$${x}", "%%{", "$", "%", "$$", "%%", "é", "日本", "a${b", "𝄞", "\u0001", "\u007f", " ", "\ufeff", "}", "{", "#", "//", "/*", "'", "\\n", "\\u0041", "${a}", "%{ if x }"}
 var keyPool = []string{"a", "b", "k1", "x-y", "a b", "", "é", "0", "null", "true", "if", "in", "日本", "with\"quote", "back\\slash", "n\nl", "100%", "a.b", "${", "A", "_"}
 var numPool = []string{"0", "1", "-1", "7", "42", "-273", "65536", "4294967296", "18446744073709551616", "123456789012345678901234567890", "0.5", "-0.25", "3.14159", "0.1", "1e-7", "123456789.123456789", "1e30", "-1e-30", "0.000001"}
@@ -389,6 +389,12 @@ func decorate(r *lib.Rand, toks []lib.Tk, chance int) []lib.Tk {
 		add()
 	}
 	for _, t := range toks {
+		if t.NL && r.Intn(100) < chance/2 {
+			// the line ends in a # / // comment and the next lines are comment-only lines (no blank line between)
+			out = append(out, lib.Tk{Text: r.Pick([]string{"# eol", "// eol", "#"})}, t)
+			add()
+			continue
+		}
 		out = append(out, t)
 		if t.NL && r.Intn(100) < chance {
 			add()
